@@ -382,7 +382,8 @@ def run_check(prop: str, tier: str, seed: int, replay: Optional[str] = None) -> 
         extra_cov = mod.finalize(ctx) or {}
 
     # deciding monitors must have been reached
-    required = getattr(mod, "REQUIRED_COUNTERS", [])
+    # (a replay runs a single case: it cannot reach every deciding monitor and is judged on its witnesses only)
+    required = [] if replay else getattr(mod, "REQUIRED_COUNTERS", [])
     for name in required:
         if counters.get(name, 0) <= 0:
             inconclusive.append(f"deciding monitor '{name}' never evaluated")
@@ -453,10 +454,14 @@ def run_check(prop: str, tier: str, seed: int, replay: Optional[str] = None) -> 
     }
     if not replay:
         os.makedirs(EVIDENCE_DIR, exist_ok=True)
-        tmp = os.path.join(EVIDENCE_DIR, f".{prop}.json.tmp")
+        # evidence is only evidence when the run observed /repo itself; runs against a scratch tree
+        # (AGILERL_SRC, used to validate monitors against seeded breaks) go to the git-ignored work dir
+        real = os.path.realpath(repo_root()) == os.path.realpath("/repo")
+        dest = os.path.join(EVIDENCE_DIR, f"{prop}.json") if real else os.path.join(WORK_DIR, f"{prop}.scratch.json")
+        tmp = dest + ".tmp"
         with open(tmp, "w") as f:
             json.dump(evidence, f, indent=1, default=str)
-        os.replace(tmp, os.path.join(EVIDENCE_DIR, f"{prop}.json"))
+        os.replace(tmp, dest)
 
     for ln in lines:
         print(ln)
